@@ -118,7 +118,11 @@ def sc_pwc(d, n, nq, K, weights):
     ks = [[d.fl(f"k{i}_{j}", lo=0.0) for j in range(n)] for i in range(nq)]
     Kq = d.arr(ks, shape=(nq, n))
     cls = CLASSES[:K]
+    sw0 = sw.copy() if sw is not None else None
     full = ParzenWindowClassifier(metric="precomputed", classes=cls).fit(d.zeros((n, 1)), y, sw)
+    if sw is not None:
+        # the weight array is the caller's (it is reused when further labels are revealed): fit must not write into it
+        d.prove(d.eq_arr(sw, sw0), "fit_leaves_sample_weight_unchanged")
     Ff = full.predict_freq(Kq)
     if not lab:
         d.prove(all(bool(d.eq(v, 0.0)) if not d.sym else True for v in d.flat(Ff)) if not d.sym else
@@ -165,6 +169,33 @@ def sc_nic(d, n, weights, missing=NAN):
     d.witness(0 < len(lab) < n, "some_unlabeled")
 
 
+def sc_skreg_unfittable(d, n, normal, missing=NAN):
+    """the wrapped estimator cannot be fitted: the fallback prediction of fit(X, y) equals that of a fit on the labeled
+    subset (unlabeled targets - whatever their sentinel - do not enter the label statistics)"""
+    import skactiveml.regressor as R
+    from harness.C15 import make_unfittable
+    xs, X, yv, y, ws, sw, lab = _data(d, n, False, False, missing=missing)
+    Kc = R.SklearnNormalRegressor if normal else R.SklearnRegressor
+    Xq = d.arr([[d.fl("q0")]], shape=(1, 1))
+    try:
+        full = Kc(make_unfittable(d.np), missing_label=missing).fit(X, y)
+        pf = full.predict(Xq)
+        if lab:
+            sub = Kc(make_unfittable(d.np), missing_label=missing).fit(d.arr([[xs[i]] for i in lab], shape=(len(lab), 1)),
+                                                                    d.arr([yv[i] for i in lab]))
+            ps = sub.predict(Xq)
+    except (core.Unencodable, core.PathAbort):
+        raise
+    except Exception as e:
+        d.prove(False, "fallback_fit_predict_succeed", info=dict(error=repr(e)[:160]))
+        return
+    if lab:
+        d.prove(d.eq_arr(pf, ps, 1e-12), "fallback_prediction_equals_fit_on_labeled_subset", info=dict(labeled=len(lab)))
+    else:
+        d.prove(d.eq(d.flat(pf)[0], 0.0), "fallback_prediction_zero_without_labels")
+    d.witness(0 < len(lab) < n, "some_unlabeled")
+
+
 UNITS = ["skactiveml.classifier._wrapper:SklearnClassifier._fit", "skactiveml.regressor._wrapper:SklearnRegressor._fit",
          "skactiveml.classifier._parzen_window_classifier:ParzenWindowClassifier.fit",
          "skactiveml.classifier._parzen_window_classifier:ParzenWindowClassifier.predict_freq",
@@ -203,6 +234,10 @@ def _refit(d, kind, n1, n2):
     return sc_refit(d, kind, n1, n2)
 
 
+HARNESSES.append(dual_harness(
+    "sklearn_regressor_unfittable", sc_skreg_unfittable,
+    lambda tier: [dict(n=n, normal=nm, missing=ms) for n in _ns(tier) for nm in (False, True) for ms in (NAN, -1.0)],
+    [UNITS[1], UNITS[7], UNITS[8], "skactiveml.regressor._wrapper:SklearnRegressor.predict"], required_witnesses=("some_unlabeled",)))
 HARNESSES.append(dual_harness(
     "refit_sees_only_labeled", _refit,
     lambda tier: [dict(kind=k, n1=2, n2=2) for k in ("classifier", "regressor")],
